@@ -1,14 +1,13 @@
 #!/bin/bash
-# native_replay.sh <rev> <repo-file-to-append-to> <test-module-file> <cargo test filter> [extra cargo args]
-# Builds a scratch worktree of /repo at <rev> under /scratch, appends the test module to the given
+# native_replay.sh <rev> <repo-file-to-append-to> <test-module-file> <cargo test filter> [cargo test target args, default: --lib]
+# Builds a scratch worktree of /repo at <rev> under /scratch, appends the test text to the given
 # file, runs the tests natively (real code, no verifier) and removes the worktree afterwards.
 set -u
 REV=$1; TARGET=$2; MOD=$3; FILTER=$4; shift 4
+TARGS=("$@"); [ ${#TARGS[@]} -eq 0 ] && TARGS=(--lib)
 W=/scratch/replay-$$
 mkdir -p /scratch
 git -C /repo worktree add --detach "$W" "$REV" >/dev/null 2>&1 || { echo "worktree failed"; exit 3; }
 cat "$MOD" >> "$W/$TARGET"
-( cd "$W" && CARGO_NET_OFFLINE=true CARGO_TARGET_DIR=/scratch/replay-target cargo test -p rustic_core --lib --offline "$FILTER" "$@" 2>&1 | grep -E "^test |test result|panicked|error(\[|:)" )
-RC=${PIPESTATUS[0]}
+( cd "$W" && CARGO_NET_OFFLINE=true CARGO_TARGET_DIR=/scratch/replay-target cargo test -p rustic_core "${TARGS[@]}" --offline "$FILTER" 2>&1 | grep -E "^test |test result|panicked|error(\[|:)" )
 git -C /repo worktree remove --force "$W"
-exit $RC
